@@ -148,7 +148,8 @@ SecretNx(inp, s, e) == [s EXCEPT !.cur = s.cur + e.len, !.nCmds = s.nCmds + 1, !
 
 RECURSIVE Pow256(_)
 Pow256(k) == IF k = 0 THEN 1 ELSE 256 * Pow256(k - 1)
-CcmFits(nonceLen, n) == 15 - nonceLen >= 4 \/ n < Pow256(15 - nonceLen)       \* length field of CCM has 15 - |nonce| bytes
+\* length field of CCM has 15 - |nonce| bytes (IF, not \/: TLC explores both branches of a disjunction inside an action, and 256^4 overflows)
+CcmFits(nonceLen, n) == IF 15 - nonceLen >= 4 THEN TRUE ELSE n < Pow256(15 - nonceLen)
 DecryptOK(inp, s, e) ==
   /\ CmdAt(s, e, 12 + 8 * Len(e.blocks)) /\ e.ev = "Authenticate" /\ e.pcl = 163 /\ e.flg = 0
   /\ s.csfOk /\ inp.flags = "enc" /\ e.key \in s.secrets
